@@ -118,7 +118,6 @@ inline bool equalsIgnoreCase(const char* s, const char* word) {
 inline Number parseNumber(const char* s) {
   using traits = FloatTraits<JsonFloat>;
   using mantissa_t = largest_type<traits::mantissa_type, JsonUInt>;
-  using exponent_t = traits::exponent_type;
 
   ARDUINOJSON_ASSERT(s != 0);
 
@@ -154,7 +153,7 @@ inline Number parseNumber(const char* s) {
     return Number();
 
   mantissa_t mantissa = 0;
-  exponent_t exponent_offset = 0;
+  int exponent_offset = 0;  // (traits::exponent_type would limit the number of digits)
   const mantissa_t maxUint = JsonUInt(-1);
 
   while (isdigit(*s)) {
